@@ -3,6 +3,7 @@ package main
 import (
 	"fmt"
 	"go/types"
+	"strings"
 
 	"golang.org/x/tools/go/ssa"
 )
@@ -169,6 +170,7 @@ type rangeState struct {
 	mi    mapInfo
 	m     Term
 	dom0  Term // domain at loop entry
+	len0  Term // length at loop entry
 	str   Term
 }
 
@@ -180,6 +182,7 @@ func (e *Enc) rangeInstr(x *ssa.Range) {
 		rs.m = e.sc(x.X)
 		if rs.mi.ok {
 			rs.dom0 = e.define(x.Name()+".dom0", e.mapDom(e.cur, rs.mi, rs.m))
+			rs.len0 = e.define(x.Name()+".len0", e.mapLen(e.cur, rs.mi, rs.m))
 		}
 	} else {
 		rs.str = e.sc(x.X)
@@ -199,20 +202,28 @@ func (e *Enc) next(x *ssa.Next) {
 		return
 	}
 	if rs.isMap {
-		kv := e.freshValue(x.Name()+".k", tt.At(1).Type())
+		kt := tt.At(1).Type()
+		if rs.mi.ok {
+			kt = rs.mi.kt
+		}
+		kv := e.freshValue(x.Name()+".k", kt)
 		var vv Value
 		if rs.mi.ok {
 			k := e.mapKey(kv, rs.mi.kt)
 			// the key was in the map when the loop started; the value is the current one
 			e.assume(implies(ok, and(sel(rs.dom0, k), not(eq(rs.m, intLit(0))))), "range yields keys of the map")
-			e.assume(implies(not(ok), tTrue), "")
+			if !strings.HasPrefix(rs.mi.keySort, "(Array") {
+				// cardinality: a map of length 1 has a single key
+				w := e.freshConst(x.Name()+".only", rs.mi.keySort)
+				e.assume(implies(eq(rs.len0, intLit(1)), mk(SBool, "(forall ((qk! %s)) (! (=> (select %s qk!) (= qk! %s)) :pattern ((select %s qk!))))", rs.mi.keySort, rs.dom0.S, w.S, rs.dom0.S)), "a map of length 1 has exactly one key")
+			}
 			cur := e.mapGet(e.cur, rs.mi, rs.m, k)
 			vv = e.defineValue(x.Name()+".v", cur)
-			e.assume(rangeFact(vv, tt.At(2).Type()), "map value well typed")
+			e.assume(rangeFact(vv, rs.mi.vt), "map value well typed")
 			// iteration ghost: seen set
 			e.rangeKeys[x] = k
 		} else {
-			vv = e.freshValue(x.Name()+".v", tt.At(2).Type())
+			vv = e.freshValue(x.Name()+".v", x.Iter.(*ssa.Range).X.Type().Underlying().(*types.Map).Elem())
 		}
 		e.vals[x] = TupleV{[]Value{Sc{ok}, kv, vv}}
 		return
